@@ -21,6 +21,8 @@ func init() {
 }
 
 func runC17(c *Ctx) {
+	c.R.Rule("RS-no-request-time-state", "request handling writes no state that outlives the request (package-level variables, objects built at start-up, constructor variables captured by handlers) declared in the packages implementing this property", 1)
+	runStateless(c, "RS-no-request-time-state", "pkg/upstream")
 	r := c.R
 	r.Rule("R1-request-writers", "request line/host/body of a live request written only in pkg/upstream or on clones", 11)
 	r.Rule("R2-body-untouched", "no body-consuming call on the pass path outside the reviewed login endpoints", 4)
